@@ -1,4 +1,5 @@
 import PharmpyProofs.C12.GraphLemmas
+import PharmpyProofs.C12.LeafLemmas
 /-
   C12 — statements, steps, model: `from_dict ∘ to_dict`, and list lemmas for the hash pre-image.
 -/
@@ -43,12 +44,13 @@ theorem Model.from_to (h : c.Lawful) (m : Model E M) (hg : m.Good) :
   obtain ⟨name, desc, ps, rvs, sts, steps, di, vt, dvs, ot, ie⟩ := m
   have h1 := Parameters.from_to ps
   have h2 := RandomVariables.from_to h rvs
-  have h3 := Statements.from_to h sts hg
+  have h3 := Statements.from_to h sts hg.1
+  have h7 := ieOpt_from_to ie hg.2
   have h4 := Steps.from_to steps
   have h5 := DataInfo.from_to di
   have h6 := allSome_map' (fun (p : E × E) => (c.ser p.1, Json.str (c.ser p.2)))
       (obsPairOf c) ot (by intro p; simp [obsPairOf, Json.asStr?, h.rt])
-  simp [Model.fromDict, Model.toDict, Model.blank, Json.get?, List.lookup, Json.asObj?, h1, h2, h3, h4, h5, h6]
+  simp [Model.fromDict, Model.toDict, Model.blank, Json.get?, List.lookup, Json.asObj?, h1, h2, h3, h4, h5, h6, h7]
 
 /-- `to_dict` reads neither the name, nor the description, nor the dataset path -/
 theorem Model.toDict_blank (m : Model E M) : m.blank.toDict c = m.toDict c := by
